@@ -624,5 +624,72 @@ func checkC15(r *verdict.Run) {
 		"(map -> flat pairs, set -> array as multiset, double/big number/verbatim -> string, boolean -> 0/1, null -> nil; order compared where defined; time/identity/random replies by shape); (2) HELLO state machine walks on three connections with protocol probes after every step, incl. transactions with HELLO 2/3 queued between commands whose replies differ between the protocols (the EXEC reply of a connection that ends in RESP2 must be RESP2 throughout). distinct = (command+options, RESP2 type, RESP3 type) + HELLO transitions"
 	c15Sequences(r, tierPick(r, 200, 5000))
 	c15HelloMachine(r, tierPick(r, 8, 100))
+	c15HookReplies(r)
 	r.Assume("two emulator instances fed the same commands are in the same state (the commands used are deterministic except where compared by shape)")
+}
+
+// c15HookReplies: replies do not only come from the built-in commands: the public SetHook API lets a test answer a
+// command with a Go value (sets, maps of several kinds, nested arrays, doubles, booleans, big numbers). Such a reply
+// goes through the same protocol conversion: on a RESP2 connection it must be the down-conversion of what a RESP3
+// connection receives, in RESP2 types only.
+func c15HookReplies(r *verdict.Run) {
+	c, err := startChild(false)
+	if err != nil {
+		r.Inconclusive("cannot start child")
+		return
+	}
+	defer c.Stop()
+	e, err := startEmu(c, "")
+	if err != nil {
+		r.Inconclusive("infra: " + err.Error())
+		return
+	}
+	if _, err := c.Do(5*time.Second, "replyhook %s", e.name); err != nil {
+		r.Inconclusive("infra: replyhook: " + err.Error())
+		return
+	}
+	c2, err := e.dial()
+	if err != nil {
+		return
+	}
+	defer c2.Close()
+	c3, err := e.dial()
+	if err != nil {
+		return
+	}
+	defer c3.Close()
+	if err := c3.Hello3(); err != nil {
+		r.Inconclusive("infra: HELLO 3: " + err.Error())
+		return
+	}
+	c2.Proto = 2
+	for round := 0; round < 3; round++ {
+		for _, kind := range []string{"set3", "set1", "set0", "set-many", "map-any", "map-string-any", "map-string-string", "array-mixed", "double", "double-int", "bool", "bignum", "ints", "strings", "nil", "int", "string", "error"} {
+			if round == 1 {
+				// the same connection after switching back and forth
+				c2.Proto = 3
+				c2.Do("HELLO", "3")
+				c2.Proto = 2
+				c2.Do("HELLO", "2")
+			}
+			c2.SendCmd("ECHO", "verif:"+kind)
+			v2, raw2, err2 := c2.ReadValue(5 * time.Second)
+			v3, err3 := c3.Do("ECHO", "verif:"+kind)
+			r.Eval(1)
+			rep := map[string]any{"kind": kind, "resp2_raw": string(truncBytes(raw2, 300)), "resp3": trunc(v3.String(), 300)}
+			if err2 != nil || err3 != nil {
+				if !c.Alive() {
+					r.Report("c15/hook-reply/process-died/"+kind, "the emulator died converting a hook reply of kind "+kind+":\n"+headLines(c.StderrHead(20000), 20), rep)
+					return
+				}
+				r.Report("c15/hook-reply/resp3-type-or-bad-framing-on-resp2/"+kind, fmt.Sprintf("hook reply of kind %s: RESP2 connection: %v, RESP3 connection: %v; raw RESP2 bytes %q", kind, err2, err3, truncBytes(raw2, 200)), rep)
+				return
+			}
+			if why := c15Equiv(v2, v3, true, "reply"); why != "" {
+				r.Report("c15/hook-reply/mismatch/"+kind, fmt.Sprintf("hook reply of kind %s: %s", kind, why), rep)
+				continue
+			}
+			r.Distinct("hook-reply/" + kind)
+		}
+	}
 }
